@@ -70,6 +70,7 @@ type txTracer struct {
 	log     *evLog
 	clients sync.Map // goid -> client name
 	park    *gate    // optional: parks goroutines at sites (gated scenarios); its at() is called after logging
+	anon    bool     // also log grant/unlock events of goroutines that are not registered clients, as "granted?" / "unlocking?"
 }
 
 func (t *txTracer) register(c string) { t.clients.Store(goid(), c) }
@@ -95,6 +96,8 @@ func (t *txTracer) hook(site string, a, b uint64) {
 	if e != "" {
 		if c, ok := t.clients.Load(goid()); ok {
 			t.log.ev(map[string]interface{}{"e": e, "c": c})
+		} else if t.anon && (e == "granted" || e == "unlocking") {
+			t.log.ev(map[string]interface{}{"e": e + "?"})
 		}
 	}
 	if t.park != nil && e != "unlocking" {
